@@ -172,7 +172,13 @@ func c06RunChunk(dir string, jobs []c06Job, results map[int]c06Out) {
 
 func mutateQuery(r *rng, q string) string {
 	toks := kvql.NewLexer(q).Split()
-	switch r.intn(9) {
+	switch r.intn(11) {
+	case 9: // trailing blanks (the renderer trims them, positions and EOF carets must cope)
+		return q + strings.Repeat(" ", 1+r.intn(60))
+	case 10: // cut the statement off and pad it: an end-of-input error on a padded query
+		if len(q) > 4 {
+			return q[:len(q)/2+r.intn(len(q)/2)] + strings.Repeat(" ", 30+r.intn(40))
+		}
 	case 0: // delete one token
 		if len(toks) > 0 {
 			t := pick(r, toks)
@@ -264,6 +270,8 @@ func c06Corpus(r *rng, n int) []string {
 		"select key, json(value)['a'] as a where key ^= 'j' order by a desc, key",
 		"select key, join(',', u, u) , upper(value) as u where key > ''",
 		"                                                  select * where key = 'a' and and value = 'b' and key ^= 'ccccccccccccccccccccccccccccccccccccccccccccccccccc' oops",
+		"select key, value where key ^= 'cccccccccccccccccccccccccccccccccccccccccccccccccccccccccccc' & value in ('a', 'b'                                          ",
+		"select * where (key = 'aaaaaaaaaaaaaaaaaaaaaaaaaaaaaaaaaaaaaaaaaaaaaaaaaaaaaaaaaaaaaaaaaaaaaaaaaaaaaaaaaaa'                                                  ",
 		"select * where key in (1, 'a')", "select * where !(key)", "where key = 'a'", ";;;", "",
 		"select * where key = 'a' limit 99999999999999999999",
 		"select * where key = 'a' limit -1, 2",
